@@ -5,6 +5,8 @@ import (
 	"bytes"
 	"fmt"
 	"github.com/Comcast/gots/v2"
+	"github.com/Comcast/gots/v2/ebp"
+	"github.com/Comcast/gots/v2/packet/adaptationfield"
 	"math/rand"
 
 	"github.com/Comcast/gots/v2/packet"
@@ -122,11 +124,77 @@ func (x01) Gen(tier string, seed int64, emit func([]Ev)) {
 			st = append(st, rndBytes(r, r.Intn(188))...) // partial tail
 		}
 		emit([]Ev{{"op": "demux", "variant": variant, "stream": B(st), "pat": patEv(pat), "pmt": absPMTEv(pmt), "scte_pid": sctePid, "scte": scte}})
+		if i%3 == 0 {
+			emit([]Ev{{"op": "ebpscan", "packets": pktsEv(x01EBPPackets(r, 6+r.Intn(10)))}})
+		}
 	}
+}
+
+// x01EBPPackets: packets of an elementary stream, some carrying an encoder boundary point in the
+// transport private data of their adaptation field, some tempting the extractor (no adaptation field but
+// the private-data bit pattern in byte 5, adaptation field of length 0, other optional fields in front).
+func x01EBPPackets(r *rand.Rand, n int) []packet.Packet {
+	var out []packet.Packet
+	for i := 0; i < n; i++ {
+		var p packet.Packet
+		switch r.Intn(6) {
+		case 0: // payload only; byte 5 is payload and may look like "has private data"
+			r.Read(p[:])
+			p[0], p[3] = 0x47, p[3]&0x0f|0x10
+			p[5] |= 0x02
+		case 1: // adaptation field of length 0
+			r.Read(p[:])
+			p[0], p[3], p[4] = 0x47, p[3]&0x0f|0x30, 0
+			p[5] |= 0x02
+		case 2: // adaptation field without private data
+			a := randAF(r, 20+r.Intn(100))
+			a.HasTPD, a.TPD = false, nil
+			for a.content() > a.Len {
+				a.HasAFE, a.AFE = false, nil
+				a.Len++
+			}
+			p = pktWithAF(r, a, true)
+		default: // an EBP (either flavour) behind any combination of PCR / OPCR / splice countdown
+			eb := c12Bytes(r, r.Intn(2) == 0)
+			a := absAF{Rai: r.Intn(2) == 0, HasPCR: r.Intn(2) == 0, PCR: rndBytes(r, 6), HasOPCR: r.Intn(3) == 0, OPCR: rndBytes(r, 6),
+				HasSpl: r.Intn(3) == 0, Splice: byte(r.Intn(256)), HasTPD: true, TPD: eb}
+			a.Len = a.content() + r.Intn(10)
+			if a.Len > 183 {
+				continue
+			}
+			p = pktWithAF(r, a, a.Len < 183)
+		}
+		out = append(out, p)
+	}
+	return out
 }
 
 func (x01) Exec(h []Ev) []Ev {
 	for _, e := range h {
+		if GS(e["op"]) == "ebpscan" {
+			res := []Ev{}
+			e["panic"] = guard(func() {
+				for _, p := range evPkts(e["packets"]) {
+					b, err := adaptationfield.EncoderBoundaryPoint(p)
+					m := Ev{"err": "nil", "bytes": B(b), "err2": false, "redata": []int{}}
+					switch err {
+					case nil:
+						x, err2 := ebp.ReadEncoderBoundaryPoint(b)
+						m["err2"] = err2 != nil
+						if err2 == nil {
+							m["redata"] = B(x.Data())
+						}
+					case gots.ErrNoEBP:
+						m["err"], m["bytes"] = "noebp", []int{}
+					default:
+						m["err"], m["bytes"] = "other", []int{}
+					}
+					res = append(res, m)
+				}
+			})
+			e["res"] = res
+			continue
+		}
 		e["sync_off"], e["sync_err"], e["pat_err"], e["pmt_err"] = 0, "nil", "nil", "nil"
 		e["nump"], e["spts_ok"], e["spts"], e["streams"], e["pids"] = 0, false, 0, []Ev{}, []int{}
 		e["panic"] = guard(func() {
